@@ -279,6 +279,62 @@ def clause7_error_handlers(ctx, P, cg):
            "lines are only refused in strict mode" % strict)
 
 
+def clause8_accepted_fd(ctx, P, cg):
+    """the handlers of a freshly accepted descriptor either hand it to a buffered socket that stays alive, or close it - on
+    every path"""
+    n = 0
+    for f in P.own_functions():
+        if f.base != "linux_io.c" or not f.calls("buffered_socket_init"):
+            continue
+        fdp = [k for k, prm in enumerate(f.params) if prm["ty"] == "i32"]
+        if not fdp:
+            continue
+        n += 1
+        fd = ("param", fdp[0], f.params[fdp[0]]["name"])
+        bad = None
+        for v in Q.path_views(ctx, P, f):
+            closed = any(P.term(f, i.a[0]) == fd for _, i in v.calls("close"))
+            init = [(k, i) for k, i in v.calls("buffered_socket_init") if Q.mentions(P.term(f, i.a[1]), lambda x: x == fd)]
+            freed_bs = False
+            if init:
+                bst = P.term(f, init[0][1].a[0])
+                freed_bs = any(k > init[0][0] and P.term(f, i.a[0]) == bst for k, i in v.calls(("cjet_free", "free")))
+            if not (closed or (init and not freed_bs)):
+                bad = v
+        ctx.ob("C13.7 R-FINI", f, "accepted-descriptor-is-handed-over-or-closed", bad is None,
+               "%s has a path on which the accepted descriptor is neither handed to a buffered socket that stays alive nor closed: the "
+               "client hangs and the descriptor leaks" % f.srcname, witness=bad.witness() if bad else None)
+    if n < 2:
+        raise AnalysisBroken("handlers of accepted descriptors found: %d" % n)
+    # a header value that fails its check fails the handshake at once (a later, valid repetition must not rescue it)
+    hvf = P.fn("websocket.c:websocket_upgrade_on_header_value")
+    for checker in ("check_websocket_version", "save_websocket_key"):
+        badv = None
+        nf = 0
+        for v in Q.path_views(ctx, P, hvf):
+            failed = v.has_atom(lambda a, p: a[0] == "cmp" and Q.is_call_to(a[2], checker) and a[3] == ("const", 0) and
+                                ((a[1] == "eq" and not p) or (a[1] == "ne" and p) or (a[1] == "slt" and p)))
+            called = any(True for _ in v.calls(checker))
+            if called and (failed or not v.has_atom(lambda a, p: a[0] == "cmp" and Q.is_call_to(a[2], checker))):
+                if failed:
+                    nf += 1
+                    rc = v.ret_const()
+                    ro = v.ret_operand()
+                    fwd = ro is not None and Q.is_call_to(P.term(hvf, ro), checker)
+                    if not fwd and (rc is None or rc == 0):
+                        badv = v
+        # forwarding the checker's result without a test is fine too (no 'failed' atom then): require that the result reaches ret
+        if nf == 0:
+            reach = any(Q.is_call_to(l, checker) for i in hvf.all_insts() if i.op == "ret" and i.a
+                        for l in Q.leaves(P, hvf, i.a[0], through_loads=False)[0])
+            ok = reach
+        else:
+            ok = badv is None
+        ctx.ob("C13.3 R-RET", hvf, "failed-header-check-fails-the-request:" + checker, ok,
+               "a header value refused by %s() does not make the header callback fail: the request goes on, and a second, valid copy of "
+               "the header lets it pass" % checker, witness=badv.witness() if badv else None)
+
+
 def run(ctx):
     for cfg in ctx.configs(["default"] if ctx.tier == "quick" else None):
         P, cg = cfg.P, cfg.cg
@@ -289,3 +345,4 @@ def run(ctx):
         clause5_callbacks(ctx, P, cg)
         clause6_target(ctx, P)
         clause7_error_handlers(ctx, P, cg)
+        clause8_accepted_fd(ctx, P, cg)
